@@ -1,5 +1,5 @@
 from dali.command import Command
-from dali.exceptions import CommunicationError
+from dali.exceptions import CommunicationError, UnsupportedFrameTypeError
 import dali.frame
 import logging
 import socket
@@ -36,6 +36,11 @@ class DaliServer:
             self._s = None
 
     def send(self, command):
+        assert isinstance(command, Command)
+        if len(command.frame) != 16:
+            # The daliserver protocol carries exactly two data bytes
+            raise UnsupportedFrameTypeError
+
         if self._s:
             s = self._s
         else:
